@@ -33,7 +33,7 @@ INV = [
     ("", "reader.chain_log@.len() >= old(reader).chain_log@.len() && reader.chain_log@.subrange(0, %s) =~= old(reader).chain_log@" % FROM),
     ("", "path_ok(%s, starts, block_offset as int, scan_end as int)" % D),
     ("", "forall|i: int| %s <= i < reader.chain_log@.len() ==> (#[trigger] reader.chain_log@[i]).1.offset < block_offset" % FROM),
-    ("C06,C07:recovered_blocks_are_exactly_the_visited_units_with_entries_with_their_size_extent_owner_and_id", "log_sound(reader.chain_log@, %s, %s, mmap.file, next_block_id_in as int, starts, scan_end as int)" % (FROM, D)),
+    ("C06,C07,C09:recovered_blocks_are_exactly_the_visited_units_with_entries_with_their_size_extent_owner_and_id", "log_sound(reader.chain_log@, %s, %s, mmap.file, next_block_id_in as int, starts, scan_end as int)" % (FROM, D)),
     ("C01,C06:recovered_blocks_are_in_file_order", "log_ordered(reader.chain_log@, %s)" % FROM),
     ("C06,C07:no_visited_unit_with_entries_is_passed_over", "log_complete(reader.chain_log@, %s, %s, starts, scan_end as int)" % (FROM, D)),
 ]
@@ -46,7 +46,7 @@ VISIT = ("assert(visit_step(log_in, reader.chain_log@, %s, mmap.file, next_block
          + "starts = st_in.push(bo);")
 UNIT = dict(
     name="recovery_scan",
-    props=["C06", "C07", "C11", "C01"],
+    props=["C06", "C07", "C11", "C01", "C09"],
     prelude=["core_types.rs", "str_ext.rs", "engine.rs", "sys_model.rs"],
     assumptions=[
         "R14 region: the body of `for file_path in files.iter()` from `let mut block_offset` on, for one file; directory listing, file order (sort), mmap opening, the count rebuild and cursor hydration are other code",
@@ -72,7 +72,7 @@ UNIT = dict(
              ensures=[
                  ("", "ret.3@ <= %s.len() && ret.3@ <= MAX_FILE_SIZE && (ret.3@ == %s.len() || ret.3@ == MAX_FILE_SIZE)" % (D, D)),
                  ("C06,C07:the_scan_visits_the_file_from_its_start_in_steps_of_one_unit_or_one_recorded_block_size", "path_ok(%s, ret.2@, ret.1@, ret.3@)" % D),
-                 ("C06,C07:recovered_blocks_are_exactly_the_visited_units_with_entries_with_their_size_extent_owner_and_id", "log_sound(final(reader).chain_log@, %s, %s, mmap.file, next_block_id_in as int, ret.2@, ret.3@)" % (FROM, D)),
+                 ("C06,C07,C09:recovered_blocks_are_exactly_the_visited_units_with_entries_with_their_size_extent_owner_and_id", "log_sound(final(reader).chain_log@, %s, %s, mmap.file, next_block_id_in as int, ret.2@, ret.3@)" % (FROM, D)),
                  ("C01,C06:recovered_blocks_are_in_file_order", "log_ordered(final(reader).chain_log@, %s)" % FROM),
                  ("C06,C07:no_visited_unit_with_entries_is_passed_over", "log_complete(final(reader).chain_log@, %s, %s, ret.2@, ret.3@)" % (FROM, D)),
                  ("C06,C07:the_scan_ends_only_at_the_end_of_the_file_or_at_a_damaged_unit", "ret.1@ %% UNIT == 0 && (ret.1@ + UNIT > ret.3@ || stop_unit(%s, ret.1@, ret.3@))" % D),
